@@ -185,11 +185,51 @@ def load_known():
     return {"findings": [], "fixed": []}
 
 
+def _itv(tok):
+    if tok == "E":
+        return None
+    l, h = tok.split(":")
+    import struct
+    f = lambda x: struct.unpack(">d", bytes.fromhex(x))[0]
+    return (f(l), f(h))
+
+
+def _strict_sign(i):
+    return i is not None and (i[0] > 0 or i[1] < 0)
+
+
+def _straddles(i):
+    return i is not None and i[0] < 0 < i[1]
+
+
+def pred_gaol_div_rel_M(line):
+    """gaol::div_rel(K,J,I) is reached with K of strict sign and J straddling 0 (cases 'N1 M' / 'P1 M')"""
+    try:
+        lhs, rhs = line.split(" => ")
+        t = lhs.split(" ")
+        o = rhs.split(" ")
+        if t[0] != "bwd2" or t[1] not in ("mul", "div"):
+            return False
+        y, x1, x2 = _itv(t[2]), _itv(t[3]), _itv(t[4])
+        x1p = _itv(o[0]) if o[0] != "E" else None
+        if t[1] == "mul":   # div_rel(y,x2,x1) then div_rel(y,x1',x2)
+            return _strict_sign(y) and (_straddles(x2) or _straddles(x1) or _straddles(x1p))
+        # bwd_div: x1 &= y*x2 ; bwd_mul(x1, tmp=y, x2): div_rel(x1,x2,y) then div_rel(x1,tmp',x2)
+        return (_strict_sign(x1) or _strict_sign(x1p)) and (_straddles(x2) or _straddles(y))
+    except Exception:
+        return False
+
+
+PREDICATES = {"gaol_div_rel_M": pred_gaol_div_rel_M}
+
+
 def match_known(pid, line, known):
     for k in known.get("findings", []):
         if k["property"] != pid:
             continue
         if re.search(k["match"], line):
+            if "pred" in k and not PREDICATES[k["pred"]](line):
+                continue
             if "max_ulps" in k:
                 from ulps import excess_ulps
                 e = excess_ulps(line)
